@@ -321,8 +321,8 @@ def setProp (strict : Bool) (recC : RecC) (ov : Val) (k : Name) (v : Val) (st : 
   | .obj id => match st.heap[id]? with
     | none => .unsup "dangling object"
     | some o => match o.props.lookup k with
-      | some (.acc (some s) _) => bindVal (callVal recC s ov [v] st) fun _ st1 => .val v st1
-      | some (.acc none _) => if strict then throwErr .type st else .val v st
+      | some (.acc _ (some s)) => bindVal (callVal recC s ov [v] st) fun _ st1 => .val v st1
+      | some (.acc _ none) => if strict then throwErr .type st else .val v st
       | _ =>
         if o.isArr && k == "length" then .unsup "array length assignment"
         else .val v { st with heap := st.heap.set! id { o with props := setSlot o.props k (.data v) } }
